@@ -161,6 +161,7 @@ void handed()
   verif_assert((d2 == d0) == (a == c && b == d), "distributions compare equal exactly when their intervals are equal");
   d2.param(p);
   verif_assert(d2 == d0 && d2.distribution().a() == a && d2.distribution().b() == b, "basic::param(p) installs exactly (a,b)");
+  verif_assert(fcppt::type_iso::undecorate(d2.min()) == a && fcppt::type_iso::undecorate(d2.max()) == b, "basic::min()/max() follow param(p)");
   d2.reset();
   verif_assert(d2 == d0, "reset() keeps the parameters");
   verif_reach("handed-end");
@@ -419,8 +420,34 @@ void container(unsigned const nwords)
     verif_assert(g1.calls == g2.calls, "uniform_container consumes exactly as many words");
     int const &rc{oc2.get_unsafe()(g4)};
     verif_assert(&rc == &vec[y], "uniform_container over a const container yields the same element");
+    // the wrapper refers to the CONTAINER: after the container got other storage of the same size (swap), it draws from
+    // the container's current elements
+    std::vector<int> other(n, 0);
+    for (unsigned i = 0; i < n; ++i) other[i] = static_cast<int>(verif_u32("elem2"));
+    vec.swap(other);
+    G g5{&ws, 0};
+    int &r2{oc.get_unsafe()(g5)};
+    verif_assert(&r2 == &vec[y], "uniform_container draws from its container's current storage (after a swap with an equally sized vector)");
   }
   verif_reach("container-end");
+}
+
+// basic_pseudo over std::mt19937 with CONCRETE seeds (the 624-word state initialisation and the twist are executed on
+// concrete values; a symbolic seed is out of reach): 0 is an ordinary seed for the Mersenne twister, 5489 its default
+void pseudo_mt_concrete()
+{
+  using wrapped = std::mt19937;
+  using fg = fcppt::random::generator::basic_pseudo<wrapped>;
+  wrapped::result_type const seed{static_cast<wrapped::result_type>(verif_param("seed"))};
+  fg g{fg::seed{seed}};
+  wrapped r{seed};
+  for (unsigned k = 0; k < 2; ++k)
+  {
+    wrapped::result_type const x{g()}, y{r()};
+    verif_out("x", static_cast<std::uint64_t>(x));
+    verif_assert(x == y, "basic_pseudo<mt19937>(seed) produces the sequence of mt19937(seed)");
+  }
+  verif_reach("pseudo-mt-end");
 }
 
 // ---- pseudo generator wrapper: same sequence as the wrapped engine for every seed
@@ -566,3 +593,5 @@ H(h_container_word32, container<word32>(2)) H(h_container_minstd, container<mins
 H(h_pseudo_sequence, pseudo_sequence()) H(h_pseudo_variate, pseudo_variate())
 //@harness h_pseudo_sequence tier=quick loop=24
 //@harness h_pseudo_variate param a8=0,5 param b8=8,16 tier=quick loop=24
+VERIF_HARNESS(h_pseudo_mt) { pseudo_mt_concrete(); }
+//@harness h_pseudo_mt param seed=0,1,5489 tier=quick loop=700
